@@ -907,7 +907,30 @@ class PE:
             if attr == "__name__":
                 return base.name.rpartition(".")[2]
         if isinstance(base, Opaque):
-            v = getattr(base, attr)
+            try:
+                v = getattr(base, attr)
+            except AttributeError:
+                # a mock that stands for a class of the repository (`_real = "<qualified class name>"`): members the mock does
+                # not define itself are the REAL class's properties / methods, evaluated on the mock
+                real = getattr(base, "_real", None)
+                if not real:
+                    raise PEError(f"mock {type(base).__name__} has no attribute {attr}")
+                rcls = self.src.cls(real)
+                _owner, node = self.class_attr_node(rcls, attr)
+                if not isinstance(node, Func):
+                    stored = attr in self.all_fields(rcls) or any(
+                        isinstance(t, ast.Attribute) and t.attr == attr and isinstance(t.value, ast.Name) and t.value.id == "self"
+                        for m in rcls.methods.values() for t in ast.walk(m.node) if isinstance(t, ast.Attribute) and isinstance(t.ctx, ast.Store))
+                    if node is not None or stored:
+                        raise PEError(f"mock {type(base).__name__} of {real} does not provide the stored attribute {attr}")
+                    raise PERaise("AttributeError", f"{rcls.node.name} object has no attribute {attr}")
+                clo = Closure(node, node.node, None, node.module, node.qname)
+                decos = node.decorator_names()
+                if any(d == "property" or d.endswith(".getter") or d.endswith("cached_property") for d in decos):
+                    return self.apply(Bound(base, clo), [], {})
+                if any(d.endswith("staticmethod") for d in decos):
+                    return clo
+                return Bound(base, clo)
             return NativeCall(v) if callable(v) else v
         raise PEError(f"attribute {attr} of {type(base).__name__}")
 
